@@ -81,3 +81,12 @@ package cachepolicy
 //@   ensures [C11.nokey_untouched] ck == "" ==> ncalls(e.cache.Get) == 0
 //@   havoc
 //@   modifies calls(innerFn), calls(exec.Context), calls(ctx.Value), calls(e.cache.Get), calls(e.cache.Set), calls(e.onHit), calls(e.onMiss), calls(e.onCache), calls(exec.CopyWithResult), calls(reti(exec.Context, 2).Value)
+
+// One executor per execution: fresh, pointing back at itself (the template dispatches PreExecute / PostExecute through that
+// pointer) and at this policy.
+//@ func (*cachePolicy).ToExecutor
+//@   builder
+//@   requires c != nil
+//@   let x := asref(result, *executor)
+//@   ensures [C01.toexecutor.fresh_self_referential+C11.toexecutor] typeis(result, *executor) && fresh(x) && x.cachePolicy == c && x.BaseExecutor != nil && fresh(x.BaseExecutor) && typeis(x.Executor, *executor) && asref(x.Executor, *executor) == x
+//@   modifies nothing
